@@ -30,15 +30,15 @@ func init() {
 		Explanation: "Decides structural necessary conditions of convergence, on every path and for every schedule: (1) in the cache, content, version and the event's update flag change together, and an initial load stores content, version 0 and the loaded state only under the not-loaded test of that same entry (PAIR/version-bump); every event is stamped with the pre-update version, applied by its handler, fanned out inside the unlock window and dropped only by the listed discards (CONF/handle-event); (2) cache content and version are written only by cache tasks under the entry's mutex and read under it (CTX/guarded-by); (3) the subscriber applies an event only when it targets its version and advances by one per update (DOM/version-filter); (4) events are processed only with the event gate known open, discarded before load, and reaccess dispatched first (DOM/event-gate); (5) queues are updated in order-preserving forms (FIFO); (6) all mutable subscription state is touched on the connection worker only (CTX/conn); (7) a resource made sendable again must carry a current snapshot (PAIR/snapshot-current: known finding F13). Not decided: end-to-end equality of the client copy with the service state, Value.Equal, the reset diff (C12), the collector (C02), JSON encodings, legacy-encoding selection.",
 		Assumptions: append([]string{"at most one cache worker runs a resource queue at a time (FIFO/CHAN rules) and one output worker per connection (CTX/conn)"}, baseAssumptions...),
 		Rules: []Rule{
-			{Name: "PAIR/version-bump", Min: 4, Run: ruleVersionBump, Doc: "content, version and update flag change together; initial load guarded"},
+			{Name: "PAIR/version-bump", Min: 2, Run: ruleVersionBump, Doc: "content, version and update flag change together; initial load guarded"},
 			{Name: "CONF/handle-event", Min: 1, Run: ruleHandleEvent, Doc: "handleEvent conformance: stamp, apply, fan out; listed discards only"},
-			{Name: "CTX/guarded-by", Min: 60, Run: ruleGuardedBy, Doc: "cache state written by cache tasks under e.mu, read under it"},
-			{Name: "DOM/version-filter", Min: 3, Run: ruleVersionFilter, Doc: "version filter on delivery"},
-			{Name: "DOM/event-gate", Min: 2, Run: ruleEventGate, Doc: "processEvent only with the gate open; not-loaded discard; reaccess first"},
-			{Name: "FIFO/queues", Min: 15, Run: ruleFIFO(allQueues...), Doc: "queue update forms"},
-			{Name: "CTX/conn", Min: 50, Run: ruleConfinement, Doc: "subscription state confined to the connection worker"},
+			{Name: "CTX/guarded-by", Min: 30, Run: ruleGuardedBy, Doc: "cache state written by cache tasks under e.mu, read under it"},
+			{Name: "DOM/version-filter", Min: 1, Run: ruleVersionFilter, Doc: "version filter on delivery"},
+			{Name: "DOM/event-gate", Min: 1, Run: ruleEventGate, Doc: "processEvent only with the gate open; not-loaded discard; reaccess first"},
+			{Name: "FIFO/queues", Min: 7, Run: ruleFIFO(allQueues...), Doc: "queue update forms"},
+			{Name: "CTX/conn", Min: 25, Run: ruleConfinement, Doc: "subscription state confined to the connection worker"},
 			{Name: "PAIR/snapshot-current", Min: 1, Run: ruleSnapshotCurrent, Doc: "re-sendable resource has a current snapshot"},
-			{Name: "WHO/state", Min: 10, Run: ruleWho([]whoEntry{
+			{Name: "WHO/state", Min: 5, Run: ruleWho([]whoEntry{
 				{"server.Subscription.version", w("(*server.Subscription).processEvent", "version+1 per update", "(*server.Subscription).setModel", "snapshot", "(*server.Subscription).setCollection", "snapshot")},
 				{"server.Subscription.queueFlag", w("server.NewSubscription", "initial loading gate", "(*server.Subscription).queueEvents", "close", "(*server.Subscription).unqueueEvents", "open")},
 				{"rescache.ResourceSubscription.model", w("(*rescache.ResourceSubscription).handleEventChange", "copy-on-write update", "(*rescache.ResourceSubscription).processGetResponse", "initial load")},
@@ -53,16 +53,16 @@ func init() {
 		Explanation: "Decides: the typestate table of Subscription.state (who may move a subscription into which state); populate → hand the frame over → release on every path (PAIR/rpc-resources); the shapes the collector relies on: ReleaseRPCResources marks sent, descends into every reference and then opens the loading gate; populateResources* count an edge once, skip sent resources and mark ToSend before descending; removeCount's counter effects follow its direct/sent/tryDelete arguments; every disposed subscription leaves the connection's table (DOM/ref-shapes); references are released with the parent's sent-ness as it was while the edge was counted (PROV/sent-flag: known finding F6); the sent-count is raised once per created edge (PAIR/edge-sent-once: known finding F8); a re-sendable resource has a current snapshot and a closed gate (PAIR/snapshot-current: known finding F13); no change on a collection, no add/remove on a model, decoded indexes inside [0,len] (DOM/index-kind-guard); no event before the hand-over (DOM/event-gate); recursion census. NOT decided — and this is the core of the property: correctness of the two-pass reference-count collector tryDelete/Unsend and of the indirectsent arithmetic on arbitrary reference graphs.",
 		Assumptions: baseAssumptions,
 		Rules: []Rule{
-			{Name: "TYPESTATE/sub-state", Min: 10, Run: ruleStateTable("server.Subscription.state", subStateNames, subStateTable), Doc: "who may move a subscription into which state"},
-			{Name: "PAIR/rpc-resources", Min: 5, Run: ruleRPCResources, Doc: "populate, send, release"},
-			{Name: "DOM/ref-shapes", Min: 5, Run: ruleRefShapes, Doc: "ReleaseRPCResources / populateResources / removeCount / tryDelete shapes"},
-			{Name: "PROV/sent-flag", Min: 2, Run: ruleSentFlag, Doc: "sent-ness read before the state is overwritten"},
-			{Name: "PAIR/edge-sent-once", Min: 3, Run: ruleEdgeSentOnce, Doc: "indirectsent raised once per created edge"},
+			{Name: "TYPESTATE/sub-state", Min: 5, Run: ruleStateTable("server.Subscription.state", subStateNames, subStateTable), Doc: "who may move a subscription into which state"},
+			{Name: "PAIR/rpc-resources", Min: 2, Run: ruleRPCResources, Doc: "populate, send, release"},
+			{Name: "DOM/ref-shapes", Min: 2, Run: ruleRefShapes, Doc: "ReleaseRPCResources / populateResources / removeCount / tryDelete shapes"},
+			{Name: "PROV/sent-flag", Min: 1, Run: ruleSentFlag, Doc: "sent-ness read before the state is overwritten"},
+			{Name: "PAIR/edge-sent-once", Min: 1, Run: ruleEdgeSentOnce, Doc: "indirectsent raised once per created edge"},
 			{Name: "PAIR/snapshot-current", Min: 1, Run: ruleSnapshotCurrent, Doc: "re-sendable resource has a current snapshot and a closed gate"},
-			{Name: "DOM/index-kind-guard", Min: 8, Run: ruleIndexKindGuards, Doc: "no stray kind / index"},
-			{Name: "DOM/event-gate", Min: 2, Run: ruleEventGate, Doc: "no event before hand-over"},
-			{Name: "REC/census", Min: 8, Run: ruleRec, Doc: "recursion census with termination guards"},
-			{Name: "WHO/counters", Min: 8, Run: ruleWho([]whoEntry{
+			{Name: "DOM/index-kind-guard", Min: 4, Run: ruleIndexKindGuards, Doc: "no stray kind / index"},
+			{Name: "DOM/event-gate", Min: 1, Run: ruleEventGate, Doc: "no event before hand-over"},
+			{Name: "REC/census", Min: 4, Run: ruleRec, Doc: "recursion census with termination guards"},
+			{Name: "WHO/counters", Min: 4, Run: ruleWho([]whoEntry{
 				{"server.Subscription.indirect", w("(*server.wsConn).addCount", "edge created", "(*server.wsConn).removeCount", "edge removed")},
 				{"server.Subscription.indirectsent", w("(*server.Subscription).populateResources", "edge handed out", "(*server.Subscription).populateResourcesLegacy", "edge handed out", "(*server.Subscription).processCollectionEvent", "already-sent child", "(*server.Subscription).processModelEvent", "already-sent children", "(*server.wsConn).removeCount", "sent edge removed", "(*server.Subscription).Unsend", "collector")},
 				{"server.Subscription.refs", w("(*server.Subscription).addReference", "first edge", "(*server.Subscription).subscribeRef", "abort", "(*server.Subscription).unsubscribeRefs", "dispose")},
@@ -75,13 +75,13 @@ func init() {
 		Explanation: "Decides: the five queues are updated only in order-preserving forms, including the re-queue of not-yet-processed events before newer ones (FIFO/queues); a worker is woken only on the empty→non-empty transition of a resource queue and never while locks are set (DOM/inch-send), so one worker at a time runs a queue; handleEvent stamps, applies and fans out inside one unlock window with no go statement (CONF/handle-event); Subscriber.Event only enqueues and the continuation of every handler runs on the connection worker (CTX/conn); an applied update advances cache and subscriber versions by exactly one and a stamped event is applied only at its version, hence at most once (PAIR/version-bump, DOM/version-filter); nothing is processed before the hand-over or while the gate is closed, with the in-loop re-test (DOM/event-gate). Not decided: the capacity countdown of the lock list, delivery by the socket, the 'equivalent derived sequence' exception (C12).",
 		Assumptions: baseAssumptions,
 		Rules: []Rule{
-			{Name: "FIFO/queues", Min: 15, Run: ruleFIFO(allQueues...), Doc: "queue update forms"},
-			{Name: "DOM/inch-send", Min: 2, Run: ruleInChSend, Doc: "worker woken only on the empty→non-empty transition"},
+			{Name: "FIFO/queues", Min: 7, Run: ruleFIFO(allQueues...), Doc: "queue update forms"},
+			{Name: "DOM/inch-send", Min: 1, Run: ruleInChSend, Doc: "worker woken only on the empty→non-empty transition"},
 			{Name: "CONF/handle-event", Min: 1, Run: ruleHandleEvent, Doc: "handleEvent conformance"},
-			{Name: "CTX/conn", Min: 50, Run: ruleConfinement, Doc: "hand-off chain stays on the connection worker"},
-			{Name: "PAIR/version-bump", Min: 4, Run: ruleVersionBump, Doc: "version bump"},
-			{Name: "DOM/version-filter", Min: 3, Run: ruleVersionFilter, Doc: "version filter on delivery"},
-			{Name: "DOM/event-gate", Min: 2, Run: ruleEventGate, Doc: "event gate"},
+			{Name: "CTX/conn", Min: 25, Run: ruleConfinement, Doc: "hand-off chain stays on the connection worker"},
+			{Name: "PAIR/version-bump", Min: 2, Run: ruleVersionBump, Doc: "version bump"},
+			{Name: "DOM/version-filter", Min: 1, Run: ruleVersionFilter, Doc: "version filter on delivery"},
+			{Name: "DOM/event-gate", Min: 1, Run: ruleEventGate, Doc: "event gate"},
 		},
 	})
 
@@ -90,12 +90,12 @@ func init() {
 		Explanation: "Decides: every data hand-out (GetRPCResources(false), a loaded subscription handed to the HTTP encoder) lies on a continuation path behind a get grant and not behind a direct-response meta status (DOM/gates); Access.CanGet grants only for no error ∧ get == true and tests the error first (TABLE/access); Cache.Access turns request and decode errors into Access.Error (LIN on its body); a denied request releases its direct subscription (PAIR/direct-count); the verdict is cached only for a result or system.accessDenied, by a live subscription (DOM/verdict-store) and cleared on every trigger before it can be reused (DOM/invalidate). Not decided: whether an access answer that was in flight when a trigger arrived is still valid (a runtime relation).",
 		Assumptions: baseAssumptions,
 		Rules: []Rule{
-			{Name: "DOM/gates", Min: 5, Run: ruleGates, Doc: "data hand-out only after the get grant on the same path"},
-			{Name: "TABLE/access", Min: 2, Run: ruleAccessTables, Doc: "decision lists of CanGet/CanCall"},
-			{Name: "DOM/verdict-store", Min: 2, Run: ruleVerdictStore, Doc: "verdict cached only for result or accessDenied"},
-			{Name: "DOM/invalidate", Min: 2, Run: ruleInvalidate, Doc: "cached verdict invalidated on every trigger"},
-			{Name: "PAIR/direct-count", Min: 4, Run: rulePairDirect, Doc: "denied request leaves no direct subscription"},
-			{Name: "WHO/access", Min: 3, Run: ruleWho([]whoEntry{
+			{Name: "DOM/gates", Min: 2, Run: ruleGates, Doc: "data hand-out only after the get grant on the same path"},
+			{Name: "TABLE/access", Min: 1, Run: ruleAccessTables, Doc: "decision lists of CanGet/CanCall"},
+			{Name: "DOM/verdict-store", Min: 1, Run: ruleVerdictStore, Doc: "verdict cached only for result or accessDenied"},
+			{Name: "DOM/invalidate", Min: 1, Run: ruleInvalidate, Doc: "cached verdict invalidated on every trigger"},
+			{Name: "PAIR/direct-count", Min: 2, Run: rulePairDirect, Doc: "denied request leaves no direct subscription"},
+			{Name: "WHO/access", Min: 1, Run: ruleWho([]whoEntry{
 				{"server.Subscription.access", w("(*server.Subscription).handleReaccess", "clear", "(*server.Subscription).reaccess", "clear", "(*server.Subscription).loadAccess", "answer task")},
 			}), Doc: "who may write the cached verdict"},
 		},
@@ -106,13 +106,13 @@ func init() {
 		Explanation: "Decides: both sites of Cache.Call lie behind a call grant on the same continuation path, for the very action value that was checked, and not behind a direct-response status (DOM/gates); CanCall grants only through call == \"*\" or an exact list entry, error first, never for an empty list (TABLE/access); at all 8 request sites the token argument is the connection's token read in the requesting task and the requester is that same connection; the payload builders use the requester's CID() and the given token (PROV/token-cid); token/tid are written only by setToken and every token change re-checks every subscription of the connection, unconditionally (DOM/token-fanout); the cached verdict is cleared on every trigger and before loadAccess can short-circuit on it (DOM/invalidate); the token is read on the connection worker only (CTX/conn: known finding F11 — the throttled re-access reads it on a fresh goroutine). Not decided: the CanCall list scanner for all strings; validity of an access answer in flight at trigger time.",
 		Assumptions: baseAssumptions,
 		Rules: []Rule{
-			{Name: "DOM/gates", Min: 5, Run: ruleGates, Doc: "call forwarded only after the matching grant, with the checked action"},
-			{Name: "TABLE/access", Min: 2, Run: ruleAccessTables, Doc: "decision list of CanCall"},
-			{Name: "DOM/invalidate", Min: 2, Run: ruleInvalidate, Doc: "verdict invalidated on every trigger"},
-			{Name: "PROV/token-cid", Min: 10, Run: ruleTokenCID, Doc: "requests carry the connection's own id and current token"},
+			{Name: "DOM/gates", Min: 2, Run: ruleGates, Doc: "call forwarded only after the matching grant, with the checked action"},
+			{Name: "TABLE/access", Min: 1, Run: ruleAccessTables, Doc: "decision list of CanCall"},
+			{Name: "DOM/invalidate", Min: 1, Run: ruleInvalidate, Doc: "verdict invalidated on every trigger"},
+			{Name: "PROV/token-cid", Min: 5, Run: ruleTokenCID, Doc: "requests carry the connection's own id and current token"},
 			{Name: "DOM/token-fanout", Min: 1, Run: ruleTokenFanout, Doc: "a token change invalidates the verdict of every subscription of the connection, also indirectly held ones"},
-			{Name: "CTX/conn", Min: 50, Run: ruleConfinement, Doc: "token read on the connection worker only"},
-			{Name: "WHO/token", Min: 2, Run: ruleWho([]whoEntry{
+			{Name: "CTX/conn", Min: 25, Run: ruleConfinement, Doc: "token read on the connection worker only"},
+			{Name: "WHO/token", Min: 1, Run: ruleWho([]whoEntry{
 				{"server.wsConn.token", w("(*server.wsConn).setToken", "token event")},
 				{"server.wsConn.tid", w("(*server.wsConn).setToken", "token event")},
 			}), Doc: "who may write token / tid"},
@@ -125,11 +125,11 @@ func init() {
 		Assumptions: baseAssumptions,
 		Rules: []Rule{
 			{Name: "DOM/token-fanout", Min: 1, Run: ruleTokenFanout, Doc: "token change re-checks every subscription"},
-			{Name: "DOM/invalidate", Min: 2, Run: ruleInvalidate, Doc: "cached verdict invalidated; gate closed before request, reopened after"},
-			{Name: "DOM/event-gate", Min: 2, Run: ruleEventGate, Doc: "reaccess dispatched before the not-loaded discard; gate"},
+			{Name: "DOM/invalidate", Min: 1, Run: ruleInvalidate, Doc: "cached verdict invalidated; gate closed before request, reopened after"},
+			{Name: "DOM/event-gate", Min: 1, Run: ruleEventGate, Doc: "reaccess dispatched before the not-loaded discard; gate"},
 			{Name: "CONF/handle-event", Min: 1, Run: ruleHandleEvent, Doc: "reaccess bypasses the not-loaded filter in the cache"},
-			{Name: "DOM/revoke", Min: 2, Run: ruleRevoke, Doc: "denial unsubscribes all direct subscriptions with the reason"},
-			{Name: "DOM/reset-protocol", Min: 3, Run: ruleResetProtocol, Doc: "reset access fan-out over base and queries"},
+			{Name: "DOM/revoke", Min: 1, Run: ruleRevoke, Doc: "denial unsubscribes all direct subscriptions with the reason"},
+			{Name: "DOM/reset-protocol", Min: 1, Run: ruleResetProtocol, Doc: "reset access fan-out over base and queries"},
 		},
 	})
 
@@ -139,10 +139,10 @@ func init() {
 		Assumptions: append([]string{"mq.Client.SendRequest completes exactly once (C18)", "a continuation refused by wsConn.Enqueue because the connection is disposing is an accepted drop"}, baseAssumptions...),
 		Rules: []Rule{
 			{Name: "LIN/reply", Min: 1, Run: ruleReply, Doc: "HandleRequest: exactly one Reply per dispatched request; Reply called from nowhere else"},
-			{Name: "LIN/continuations", Min: 25, Run: linAll, Doc: "every linear continuation parameter is consumed exactly once on every full path"},
-			{Name: "LIN/drain", Min: 4, Run: ruleDrain, Doc: "pending callback slots cleared only after draining, or when the connection is gone"},
-			{Name: "PAIR/throttle-slot", Min: 3, Run: rulePairThrottle, Doc: "a governed request that is answered frees its throttle slot: requests waiting behind it (and the client requests depending on them) are not stranded"},
-			{Name: "CTX/conn", Min: 50, Run: ruleConfinement, Doc: "continuations and replies on the connection worker"},
+			{Name: "LIN/continuations", Min: 12, Run: linAll, Doc: "every linear continuation parameter is consumed exactly once on every full path"},
+			{Name: "LIN/drain", Min: 2, Run: ruleDrain, Doc: "pending callback slots cleared only after draining, or when the connection is gone"},
+			{Name: "PAIR/throttle-slot", Min: 1, Run: rulePairThrottle, Doc: "a governed request that is answered frees its throttle slot: requests waiting behind it (and the client requests depending on them) are not stranded"},
+			{Name: "CTX/conn", Min: 25, Run: ruleConfinement, Doc: "continuations and replies on the connection worker"},
 		},
 	})
 
@@ -151,10 +151,10 @@ func init() {
 		Explanation: "Decides: on every continuation path of every function that takes a direct subscription the count is released exactly once on every failure and on every outcome of get-type handlers, kept exactly on the success of subscribe-type handlers, and never released when Subscribe itself failed (PAIR/direct-count); an unsubscribe removes counts only behind the test direct >= count with the same count (DOM/unsub-precond); the count parameter is validated as positive (DOM/count-param); direct++ only below the limit (DOM/sub-limit); revocation and delete remove all direct subscriptions (DOM/revoke); direct is written by addCount/removeCount only. Not decided: numeric equality of the counter with the response history (it is the sum of the per-path facts).",
 		Assumptions: append([]string{"LIN (C07): every handler replies exactly once", "a task refused by a disposing connection needs no release (dispose releases everything)"}, baseAssumptions...),
 		Rules: []Rule{
-			{Name: "PAIR/direct-count", Min: 4, Run: rulePairDirect, Doc: "acquire/release of the direct count along every continuation path"},
-			{Name: "DOM/unsub-precond", Min: 3, Run: ruleUnsubPrecond, Doc: "unsubscribe precondition, count validation, limit"},
-			{Name: "DOM/revoke", Min: 2, Run: ruleRevoke, Doc: "revocation / delete remove all direct subscriptions"},
-			{Name: "WHO/direct", Min: 2, Run: ruleWho([]whoEntry{
+			{Name: "PAIR/direct-count", Min: 2, Run: rulePairDirect, Doc: "acquire/release of the direct count along every continuation path"},
+			{Name: "DOM/unsub-precond", Min: 1, Run: ruleUnsubPrecond, Doc: "unsubscribe precondition, count validation, limit"},
+			{Name: "DOM/revoke", Min: 1, Run: ruleRevoke, Doc: "revocation / delete remove all direct subscriptions"},
+			{Name: "WHO/direct", Min: 1, Run: ruleWho([]whoEntry{
 				{"server.Subscription.direct", w("(*server.wsConn).addCount", "subscribe", "(*server.wsConn).removeCount", "unsubscribe")},
 			}), Doc: "who may write the direct count"},
 		},
@@ -165,11 +165,11 @@ func init() {
 		Explanation: "Decides: getSubscription counts one use on every successful return and none on an error return, errors only when an mq subscription was requested, and with subscribe=true returns only after the entry's mq subscription exists (PAIR/cache-count); callers release the use or hand it to addSubscriber exactly once; a count is released iff a membership was removed and bulk releases equal the set dropped (PAIR/membership); a late or repeated Loaded owns or releases the resource exactly once (PAIR/loaded-handover); eviction re-checks the count under the locks, addCount cancels a pending eviction, removeCount queues the entry exactly at zero, gauges follow the count (DOM/evict); get requests are issued only from addSubscriber / reset (DOM/sub-before-get). Not decided: the eviction delay and timers, gauges reading zero at a particular moment.",
 		Assumptions: baseAssumptions,
 		Rules: []Rule{
-			{Name: "PAIR/cache-count", Min: 3, Run: rulePairCacheCount, Doc: "getSubscription / sendRequest / Subscribe use count pairing"},
-			{Name: "PAIR/membership", Min: 3, Run: rulePairMembership, Doc: "count released iff a membership was removed"},
+			{Name: "PAIR/cache-count", Min: 1, Run: rulePairCacheCount, Doc: "getSubscription / sendRequest / Subscribe use count pairing"},
+			{Name: "PAIR/membership", Min: 1, Run: rulePairMembership, Doc: "count released iff a membership was removed"},
 			{Name: "PAIR/loaded-handover", Min: 1, Run: rulePairLoaded, Doc: "late / repeated Loaded"},
-			{Name: "DOM/evict", Min: 5, Run: ruleEvict, Doc: "eviction protocol, gauges, get only from a subscribed entry"},
-			{Name: "WHO/count", Min: 5, Run: ruleWho([]whoEntry{
+			{Name: "DOM/evict", Min: 2, Run: ruleEvict, Doc: "eviction protocol, gauges, get only from a subscribed entry"},
+			{Name: "WHO/count", Min: 2, Run: ruleWho([]whoEntry{
 				{"rescache.EventSubscription.count", w("(*rescache.Cache).getSubscription", "new entry", "(*rescache.EventSubscription).addCount", "use", "(*rescache.EventSubscription).removeCount", "release", "(*rescache.EventSubscription).addSubscriber", "error-state branch (unreachable today)")},
 				{"rescache.EventSubscription.mqSub", w("(*rescache.Cache).getSubscription", "established under Cache.mu")},
 			}), Doc: "who may write the use count"},
@@ -181,10 +181,10 @@ func init() {
 		Explanation: "Decides: every request site sends the requesting connection's own id and its current token (PROV/token-cid); no value derived from the connection id, the {cid}-expanded resource name/query or the cache's resource name reaches a client-facing sink — event names, resource-set keys, resource-response rids, hrefs (PROV/cid-taint, backward provenance over the whole program); ExpandCID is called on the service-facing side only and expands every tag; token resets re-authenticate only connections whose own tid is listed; events are fanned out to the subscriber set of the resource being handled (DOM/fanout-set). Not decided: what services put into payloads.",
 		Assumptions: baseAssumptions,
 		Rules: []Rule{
-			{Name: "PROV/token-cid", Min: 10, Run: ruleTokenCID, Doc: "requests carry the connection's own id and current token"},
-			{Name: "PROV/cid-taint", Min: 15, Run: ruleCIDTaint, Doc: "expanded names never reach client-facing sinks; ExpandCID callers; tid filter"},
-			{Name: "DOM/fanout-set", Min: 4, Run: ruleFanoutSet, Doc: "events go to the subscriber set of that resource"},
-			{Name: "CTX/conn", Min: 50, Run: ruleConfinement, Doc: "token read on the connection worker only"},
+			{Name: "PROV/token-cid", Min: 5, Run: ruleTokenCID, Doc: "requests carry the connection's own id and current token"},
+			{Name: "PROV/cid-taint", Min: 7, Run: ruleCIDTaint, Doc: "expanded names never reach client-facing sinks; ExpandCID callers; tid filter"},
+			{Name: "DOM/fanout-set", Min: 2, Run: ruleFanoutSet, Doc: "events go to the subscriber set of that resource"},
+			{Name: "CTX/conn", Min: 25, Run: ruleConfinement, Doc: "token read on the connection worker only"},
 		},
 	})
 
@@ -193,13 +193,13 @@ func init() {
 		Explanation: "Decides: wsConn.dispose sets the flag and closes the worker channel in one critical section, removes the connection from the cache and from token-reset fan-out, unsubscribes the connection events, disposes every subscription, and leaves the registry (DOM/dispose); Subscription.Dispose releases references and exactly one cache use; Enqueue/Subscribe/Unsubscribe refuse a disposing connection; a late Loaded releases the cache use (PAIR/loaded-handover); late access answers are absorbed (DOM/verdict-store); no call/auth request is issued by a continuation of a disposed connection (CTX/post-dispose); a refused task never strands a throttle slot of other connections (PAIR/throttle-slot); temporary HTTP connections are disposed exactly once on every exit (LIN/temp-conn); sends on the worker channel cannot hit the close (CHAN). Not decided: 'no effect on other connections' as a runtime fact beyond the pairing rules of C09.",
 		Assumptions: baseAssumptions,
 		Rules: []Rule{
-			{Name: "DOM/dispose", Min: 6, Run: ruleDispose, Doc: "dispose set; refusal after close; Subscription.Dispose"},
-			{Name: "CTX/post-dispose", Min: 3, Run: rulePostDispose, Doc: "no request from a continuation of a disposed connection"},
+			{Name: "DOM/dispose", Min: 3, Run: ruleDispose, Doc: "dispose set; refusal after close; Subscription.Dispose"},
+			{Name: "CTX/post-dispose", Min: 1, Run: rulePostDispose, Doc: "no request from a continuation of a disposed connection"},
 			{Name: "LIN/temp-conn", Min: 1, Run: ruleTempConn, Doc: "temporary HTTP connections disposed exactly once"},
 			{Name: "PAIR/loaded-handover", Min: 1, Run: rulePairLoaded, Doc: "late Loaded releases the cache use"},
-			{Name: "DOM/verdict-store", Min: 2, Run: ruleVerdictStore, Doc: "late access answers absorbed"},
-			{Name: "PAIR/throttle-slot", Min: 3, Run: rulePairThrottle, Doc: "a refused task does not strand a throttle slot"},
-			{Name: "CHAN/close-send", Min: 4, Run: ruleChanFor("server.wsConn.work"), Doc: "no send on the closed worker channel"},
+			{Name: "DOM/verdict-store", Min: 1, Run: ruleVerdictStore, Doc: "late access answers absorbed"},
+			{Name: "PAIR/throttle-slot", Min: 1, Run: rulePairThrottle, Doc: "a refused task does not strand a throttle slot"},
+			{Name: "CHAN/close-send", Min: 2, Run: ruleChanFor("server.wsConn.work"), Doc: "no send on the closed worker channel"},
 		},
 	})
 
@@ -208,11 +208,11 @@ func init() {
 		Explanation: "Decides the plumbing and protocol clauses only: a matching entry is re-fetched once, with get.<name> and its normalised query, unless a reset is already outstanding; the resetting flag is set before the request and cleared before the answer is processed, in both the throttled and the unthrottled twin; the base resource (unless it is a link) and every cached query variant are visited exactly once, for resources and for access (DOM/reset-protocol); derived events go through handleEvent, state events are dropped only while resetting (CONF/handle-event); invalid patterns match nothing at the recogniser level (TABLE/reject-set); only valid patterns are matched (DOM/valid-patterns). NOT decided — the heart of the property: wildcard matching semantics for all names, that the model diff and the LCS edit script transform old into new with indexes in range, that unchanged content yields no event.",
 		Assumptions: baseAssumptions,
 		Rules: []Rule{
-			{Name: "DOM/reset-protocol", Min: 3, Run: ruleResetProtocol, Doc: "re-fetch once per matching entry with its normalised query; flag protocol; visit base and queries"},
+			{Name: "DOM/reset-protocol", Min: 1, Run: ruleResetProtocol, Doc: "re-fetch once per matching entry with its normalised query; flag protocol; visit base and queries"},
 			{Name: "CONF/handle-event", Min: 1, Run: ruleHandleEvent, Doc: "derived events go through handleEvent; state events dropped only while resetting"},
 			{Name: "TABLE/reject-set", Min: 1, Run: ruleRejectSet(rejectSpecs()[2:]), Doc: "ParseResourcePattern rejects excluded characters"},
-			{Name: "DOM/valid-patterns", Min: 2, Run: ruleValidPatterns, Doc: "only valid patterns are matched; reset fields routed to their visitors"},
-			{Name: "PAIR/throttle-slot", Min: 3, Run: rulePairThrottle, Doc: "throttled re-fetch frees its slot"},
+			{Name: "DOM/valid-patterns", Min: 1, Run: ruleValidPatterns, Doc: "only valid patterns are matched; reset fields routed to their visitors"},
+			{Name: "PAIR/throttle-slot", Min: 1, Run: rulePairThrottle, Doc: "throttled re-fetch frees its slot"},
 		},
 	})
 
@@ -221,11 +221,11 @@ func init() {
 		Explanation: "Decides: the queue is locked with len(queries) of the map that is iterated unmodified, each iteration releases exactly one lock on every outcome of its request (all early returns are inside the unlock task), nothing returns between locking and the end of the iteration, locks are installed only for a positive count; the request goes to the event's subject with the range key as query; answers are applied through per-iteration values, full model/collection answers only behind the matching kind test (PAIR/query-lock); no deferred closure captures a shared loop variable (DOM/loopvar); an initial load re-initialises an entry only under the not-loaded test of that same entry, so an alias arriving later cannot reset a shared resource (PAIR/version-bump); a repeated Loaded is ignored (LIN/loaded-once); Enqueue wakes no worker while locks are set (DOM/inch-send). Not decided: the capacity countdown arithmetic of the lock list; two aliasing gets in flight beyond the loaded-once guard.",
 		Assumptions: baseAssumptions,
 		Rules: []Rule{
-			{Name: "PAIR/query-lock", Min: 2, Run: ruleQueryLock, Doc: "one lock per cached query released exactly once"},
+			{Name: "PAIR/query-lock", Min: 1, Run: ruleQueryLock, Doc: "one lock per cached query released exactly once"},
 			{Name: "DOM/loopvar", Min: 1, Run: ruleLoopVar("rescache", "server", "nats"), Doc: "deferred closures capture no shared loop variable"},
-			{Name: "PAIR/version-bump", Min: 4, Run: ruleVersionBump, Doc: "initial load guarded by the not-loaded test of the same entry"},
+			{Name: "PAIR/version-bump", Min: 2, Run: ruleVersionBump, Doc: "initial load guarded by the not-loaded test of the same entry"},
 			{Name: "PAIR/loaded-handover", Min: 1, Run: rulePairLoaded, Doc: "repeated Loaded ignored"},
-			{Name: "DOM/inch-send", Min: 2, Run: ruleInChSend, Doc: "no worker woken while locks are set"},
+			{Name: "DOM/inch-send", Min: 1, Run: ruleInChSend, Doc: "no worker woken while locks are set"},
 		},
 	})
 
@@ -234,8 +234,8 @@ func init() {
 		Explanation: "Decides: at all 10 publish/subscribe sites the subject is assembled only from literal prefixes and values whose every provenance leaf (backward over the whole program: parameters through the call graph, fields through all their stores, decoders) is validated by IsValidRID/IsValidRIDPart on the path to its use, trusted (xid, constants) or one of the two service-addressed subjects; the query part of a resource id never reaches a subject (PROV/subject); the recognisers reject control characters, space, DEL, non-ASCII, '*', '>' (and '.', '?' for parts) on every path of a scan step (TABLE/reject-set, constant propagation per character); every subject is validated hence invalid input reaches no service request. Not decided: the recognisers on whole strings (token structure), PathToRID decoding of every byte string.",
 		Assumptions: baseAssumptions,
 		Rules: []Rule{
-			{Name: "PROV/subject", Min: 10, Run: ruleSubjectProv, Doc: "subjects built from validated parts"},
-			{Name: "TABLE/reject-set", Min: 3, Run: ruleRejectSet(rejectSpecs()), Doc: "recognisers reject the excluded characters"},
+			{Name: "PROV/subject", Min: 5, Run: ruleSubjectProv, Doc: "subjects built from validated parts"},
+			{Name: "TABLE/reject-set", Min: 1, Run: ruleRejectSet(rejectSpecs()), Doc: "recognisers reject the excluded characters"},
 		},
 	})
 
@@ -244,14 +244,14 @@ func init() {
 		Explanation: "Decides the panic classes that have a crisp rule: decoders return no data with an error, so log-and-continue callers cannot apply a partial message (DOM/all-or-nothing); decoded indexes reach slice operations only inside [0,len] with the exact bound for element access vs slicing, content is dereferenced only for the right kind (DOM/index-kind-guard); optional decoded pointers are dereferenced under their nil test or a predicate implying it, null elements of decoded pointer slices are rejected (DOM/opt-deref); explicit panics and unchecked type assertions are the listed ones (CENSUS/panic); no send on a channel that may have been closed (CHAN: known finding F5 for Cache.inCh); recursive cycles are the listed ones with checked guards (REC/census); the mutex acquisition graph is acyclic (LOCK/order); one Done per throttle slot, so the 'negative running counter' panic is unreachable (PAIR/throttle-slot). Not decided: index safety of lcs, ResourcePattern.Match, byte scans in UnmarshalJSON, encoder buffers; JSON library behaviour; memory exhaustion.",
 		Assumptions: baseAssumptions,
 		Rules: []Rule{
-			{Name: "DOM/all-or-nothing", Min: 10, Run: ruleDecoders, Doc: "decoders return no data with an error"},
-			{Name: "DOM/index-kind-guard", Min: 8, Run: ruleIndexKindGuards, Doc: "decoded indexes bounded; content of the right kind"},
-			{Name: "DOM/opt-deref", Min: 8, Run: ruleOptDeref, Doc: "optional decoded pointers dereferenced under their test"},
-			{Name: "CENSUS/panic", Min: 6, Run: rulePanicCensus, Doc: "explicit panics and unchecked assertions are the listed ones"},
-			{Name: "CHAN/close-send", Min: 6, Run: ruleChan, Doc: "no send on a closed channel"},
-			{Name: "REC/census", Min: 8, Run: ruleRec, Doc: "recursion census"},
-			{Name: "LOCK/order", Min: 4, Run: ruleLockOrder, Doc: "lock order acyclic"},
-			{Name: "PAIR/throttle-slot", Min: 3, Run: rulePairThrottle, Doc: "Done never called without a slot"},
+			{Name: "DOM/all-or-nothing", Min: 5, Run: ruleDecoders, Doc: "decoders return no data with an error"},
+			{Name: "DOM/index-kind-guard", Min: 4, Run: ruleIndexKindGuards, Doc: "decoded indexes bounded; content of the right kind"},
+			{Name: "DOM/opt-deref", Min: 4, Run: ruleOptDeref, Doc: "optional decoded pointers dereferenced under their test"},
+			{Name: "CENSUS/panic", Min: 3, Run: rulePanicCensus, Doc: "explicit panics and unchecked assertions are the listed ones"},
+			{Name: "CHAN/close-send", Min: 3, Run: ruleChan, Doc: "no send on a closed channel"},
+			{Name: "REC/census", Min: 4, Run: ruleRec, Doc: "recursion census"},
+			{Name: "LOCK/order", Min: 2, Run: ruleLockOrder, Doc: "lock order acyclic"},
+			{Name: "PAIR/throttle-slot", Min: 1, Run: rulePairThrottle, Doc: "Done never called without a slot"},
 		},
 	})
 
@@ -260,9 +260,9 @@ func init() {
 		Explanation: "Decides: in both encoders the expansion path is pushed and popped on every successful path, the cycle test and the error-leaf return precede the push, the recursive descent is guarded by the cycle test and the push, so the expansion terminates on cyclic graphs and later siblings are not cut (PAIR/enc-path); HEAD and GET take the same path and HEAD is tested nowhere else; the two encoders agree on the value kinds (TWIN/encode-value); resource responses set Location from the unexpanded rid (PROV/cid-taint clause of C10). Not decided — the core: equality of the rendering with the recursive expansion for every graph; JSON well-formedness beyond the guarded structure; RIDToPath/PathToRID as inverse maps.",
 		Assumptions: baseAssumptions,
 		Rules: []Rule{
-			{Name: "PAIR/enc-path", Min: 3, Run: ruleEncoder, Doc: "expansion path balance, cycle guard, HEAD==GET"},
-			{Name: "TWIN/encode-value", Min: 2, Run: ruleEncodeValueTwin, Doc: "value kind dispatch of both encoders"},
-			{Name: "REC/census", Min: 8, Run: ruleRec, Doc: "encoder recursion is a listed cycle"},
+			{Name: "PAIR/enc-path", Min: 1, Run: ruleEncoder, Doc: "expansion path balance, cycle guard, HEAD==GET"},
+			{Name: "TWIN/encode-value", Min: 1, Run: ruleEncodeValueTwin, Doc: "value kind dispatch of both encoders"},
+			{Name: "REC/census", Min: 4, Run: ruleRec, Doc: "encoder recursion is a listed cycle"},
 		},
 	})
 
@@ -271,12 +271,12 @@ func init() {
 		Explanation: "Decides completely the finite tables: errorStatus maps each code of the property's table (and five other codes) to the stated status, by constant propagation with the code fixed (TABLE/errorStatus); IsDirectResponseStatus and IsValidStatus are true exactly within 300..599, with the nil cases (TABLE/status-interval); MergeHeader never copies the five protected keys, each canonical, appends Set-Cookie and replaces other keys (TABLE/protected); every meta a decoder hands out was canonicalised (DOM/canonicalize); on a direct-response status no further service request is issued and no data is handed out (DOM/gates); the origin check precedes header auth and every service request (DOM/origin). Not decided: matchesOrigins for all strings, net/http and gorilla behaviour.",
 		Assumptions: baseAssumptions,
 		Rules: []Rule{
-			{Name: "TABLE/errorStatus", Min: 15, Run: ruleErrorStatus, Doc: "error code to status table"},
-			{Name: "TABLE/status-interval", Min: 2, Run: ruleStatusInterval, Doc: "meta status window 300..599"},
-			{Name: "TABLE/protected", Min: 7, Run: ruleProtectedHeaders, Doc: "protected headers, Set-Cookie accumulation"},
-			{Name: "DOM/canonicalize", Min: 2, Run: ruleCanonicalize, Doc: "decoders canonicalise every meta they return"},
-			{Name: "DOM/gates", Min: 5, Run: ruleGates, Doc: "direct-response status ends the request"},
-			{Name: "DOM/origin", Min: 3, Run: ruleOrigin, Doc: "origin check before header auth and service requests"},
+			{Name: "TABLE/errorStatus", Min: 7, Run: ruleErrorStatus, Doc: "error code to status table"},
+			{Name: "TABLE/status-interval", Min: 1, Run: ruleStatusInterval, Doc: "meta status window 300..599"},
+			{Name: "TABLE/protected", Min: 3, Run: ruleProtectedHeaders, Doc: "protected headers, Set-Cookie accumulation"},
+			{Name: "DOM/canonicalize", Min: 1, Run: ruleCanonicalize, Doc: "decoders canonicalise every meta they return"},
+			{Name: "DOM/gates", Min: 2, Run: ruleGates, Doc: "direct-response status ends the request"},
+			{Name: "DOM/origin", Min: 1, Run: ruleOrigin, Doc: "origin check before header auth and service requests"},
 		},
 	})
 
@@ -286,10 +286,10 @@ func init() {
 		Assumptions: append([]string{"nats.go delivers at most what was published; timerqueue fires each entry at most once"}, baseAssumptions...),
 		Rules: []Rule{
 			{Name: "LIN/sendrequest", Min: 1, Run: ruleLIN(func(t linTarget) bool { return t.name == "nats.Client.SendRequest" }), Doc: "every path of SendRequest consumes the completion exactly once"},
-			{Name: "PATHS/remove-before-invoke", Min: 2, Run: ruleNatsRemoveBeforeInvoke, Doc: "pending entry removed under the lookup's lock before the completion runs"},
-			{Name: "DOM/nats-plumbing", Min: 5, Run: ruleNatsPlumbing, Doc: "control-line guards, one listener, closed handler"},
+			{Name: "PATHS/remove-before-invoke", Min: 1, Run: ruleNatsRemoveBeforeInvoke, Doc: "pending entry removed under the lookup's lock before the completion runs"},
+			{Name: "DOM/nats-plumbing", Min: 2, Run: ruleNatsPlumbing, Doc: "control-line guards, one listener, closed handler"},
 			{Name: "DOM/loopvar", Min: 0, Run: ruleLoopVar("nats"), Doc: "deferred closures capture no shared loop variable"},
-			{Name: "WHO/mqreqs", Min: 2, Run: ruleWho([]whoEntry{
+			{Name: "WHO/mqreqs", Min: 1, Run: ruleWho([]whoEntry{
 				{"nats.Client.mqReqs", w("(*nats.Client).Connect", "fresh map", "(*nats.Client).close", "fresh map")},
 			}), Doc: "pending map replaced only on connect/close"},
 		},
@@ -300,10 +300,10 @@ func init() {
 		Explanation: "Decides: running++ only below the limit under the throttle mutex, Done on every non-panic path either decrements or hands the slot to the head of the queue, FIFO (DOM/throttle, FIFO/queues) — so running <= limit is inductive and no slot is lost; each governed closure calls Done exactly once on every continuation path and outside any task the connection may refuse (PAIR/throttle-slot); no zero-limit throttle is created (DOM/limit-positive); throttled and unthrottled twins agree (covered by the same path rules on both). Not decided: the number of outstanding requests as a runtime quantity; global progress under arbitrary answer orders beyond 'every completion frees or hands over exactly one slot'.",
 		Assumptions: append([]string{"C18: each governed request completes"}, baseAssumptions...),
 		Rules: []Rule{
-			{Name: "PAIR/throttle-slot", Min: 3, Run: rulePairThrottle, Doc: "exactly one Done per governed request"},
-			{Name: "DOM/throttle", Min: 3, Run: ruleThrottle, Doc: "Add/Done invariant; positive limit at both creation sites"},
-			{Name: "FIFO/queues", Min: 2, Run: ruleFIFO("rescache.Throttle.queue"), Doc: "waiting closures started in order"},
-			{Name: "WHO/throttle", Min: 3, Run: ruleWho([]whoEntry{
+			{Name: "PAIR/throttle-slot", Min: 1, Run: rulePairThrottle, Doc: "exactly one Done per governed request"},
+			{Name: "DOM/throttle", Min: 1, Run: ruleThrottle, Doc: "Add/Done invariant; positive limit at both creation sites"},
+			{Name: "FIFO/queues", Min: 1, Run: ruleFIFO("rescache.Throttle.queue"), Doc: "waiting closures started in order"},
+			{Name: "WHO/throttle", Min: 1, Run: ruleWho([]whoEntry{
 				{"rescache.Throttle.running", w("(*rescache.Throttle).Add", "slot taken", "(*rescache.Throttle).Done", "slot freed")},
 				{"rescache.Throttle.limit", w("rescache.NewThrottle", "constructor")},
 			}), Doc: "who may write running / limit"},
@@ -315,9 +315,9 @@ func init() {
 		Explanation: "Decides: Stop runs metrics, sockets, HTTP, messaging in this order on the one path that is not a repeated Stop, sets stopping under the mutex first and reports the cause on the stop channel last; the messaging client is closed with a bounded wait before the cache stops; Cache.Stop closes the worker channel, clears pending evictions and resets started; no connection is created or registered once stopped or stopping; loss of the messaging connection stops the service with the cause (DOM/stop); sends on inCh cannot hit the close (CHAN: known finding F5). Not decided: that sockets are closed within the timeouts, net/http shutdown, 'never serves from a stale cache' as a runtime fact.",
 		Assumptions: baseAssumptions,
 		Rules: []Rule{
-			{Name: "DOM/stop", Min: 6, Run: ruleStop, Doc: "ordered shutdown, cache clean-up, refusal of new connections, closed-handler plumbing"},
-			{Name: "CHAN/close-send", Min: 6, Run: ruleChan, Doc: "no send on a closed channel at shutdown"},
-			{Name: "WHO/stop", Min: 4, Run: ruleWho([]whoEntry{
+			{Name: "DOM/stop", Min: 3, Run: ruleStop, Doc: "ordered shutdown, cache clean-up, refusal of new connections, closed-handler plumbing"},
+			{Name: "CHAN/close-send", Min: 3, Run: ruleChan, Doc: "no send on a closed channel at shutdown"},
+			{Name: "WHO/stop", Min: 2, Run: ruleWho([]whoEntry{
 				{"server.Service.stopping", w("(*server.Service).Stop", "shutdown flag")},
 				{"server.Service.stop", w("(*server.Service).Stop", "cleared", "(*server.Service).start", "re-created")},
 				{"rescache.Cache.started", w("(*rescache.Cache).Start", "set", "(*rescache.Cache).Stop", "cleared")},
